@@ -808,6 +808,11 @@ func (e *Exec) evConv(x ast.Expr, t types.Type) Val {
 
 // convAssign: value copy semantics for structs; interface boxing records the dynamic type.
 func (e *Exec) convAssign(v Val, from, to types.Type) Val {
+	if to != nil && kindOf(to) == kSlice {
+		if sv, ok := v.(SV); ok && sv.T == "0" {
+			return SliceV{"0", "0", "0", "0"} // nil slice
+		}
+	}
 	if from == nil || to == nil {
 		return v
 	}
